@@ -123,10 +123,40 @@ def run_case(case, rec):
             _judge(rec, "step_api", case, scheme, backend, v0, v1, dt)
             rec.sig(_sig(case, scheme, backend), nontrivial=ncomp >= 2)
 
+    edited = _after_edits(case, rec, m)
     if case.get("manual"):
-        _manual(case, rec, m)
+        _manual(edited, rec, m)
     if case.get("inner"):
         _inner(case, rec)
+
+
+def _after_edits(case, rec, m):
+    """History: the module has been simulated; now parameters are edited with set() and it is simulated
+    again.  The second simulation must be the exact step for the *edited* tables (no stale derived data)."""
+    import copy
+    from jxmon import build
+    from jxmon.core import Refused
+
+    rng = trees.rng_for(int(case["dt"] * 1e6) % (2**31), PID, 99)
+    p = copy.deepcopy(case["params"])
+    n = trees.total_comps(case["struct"])
+    case2 = dict(case)
+    case2["params"] = p
+    cols = {"cm": "capacitance", "radius": "radius", "length": "length", "ra": "axial_resistivity", "g": "Leak_gLeak", "v": "v"}
+    order = ["cm"] + [str(k) for k in rng.permutation(["radius", "length", "ra", "g", "v"])][:2]
+    backend = str(rng.choice(BACKENDS))
+    for key in order:
+        fac = rng.uniform(0.3, 3.0, n) if key != "v" else 1.0
+        p[key] = [float(x) for x in (np.asarray(p[key]) * fac + (rng.uniform(-20, 20, n) if key == "v" else 0.0))]
+        m.set(cols[key], np.asarray(p[key]))
+        for scheme in ("bwd_euler", "crank_nicolson"):
+            try:
+                v0, v1 = rec.call("step_api", build.one_step, m, case["stim"], case["dt"], scheme, backend,
+                                  where=f"after set({cols[key]}) {scheme}/{backend}")
+            except Refused:
+                continue
+            _judge(rec, "step_api", case2, scheme, backend, v0, v1, case["dt"], extra={"after_edit": cols[key]})
+    return case2
 
 
 def _manual(case, rec, m):
